@@ -1818,7 +1818,6 @@ void SZ_compress_args_float_NoCkRngeNoGzip_1D_pwr_pre_log(unsigned char** newByt
 	}
 
 	float valueRangeSize, medianValue_f;
-	computeRangeSize_float(log_data, dataLength, &valueRangeSize, &medianValue_f);
 	if(fabs(min_log_data) > max_abs_log_data) max_abs_log_data = fabs(min_log_data);
 	double realPrecision = log2(1.0 + pwrErrRatio) - max_abs_log_data * 1.2e-7;
 	if(realPrecision <= 0)
@@ -1835,6 +1834,8 @@ void SZ_compress_args_float_NoCkRngeNoGzip_1D_pwr_pre_log(unsigned char** newByt
 			log_data[i] = min_log_data - 3.0*realPrecision - 8*max_abs_log_data*1.2e-7; //a zero decodes to at most min_log - 2*e - 8 roundings, strictly below the threshold
 		}
 	}
+	//the range and the median the kernel works with cover the placeholders of the zeros as well
+	computeRangeSize_float(log_data, dataLength, &valueRangeSize, &medianValue_f);
 
     TightDataPointStorageF* tdps = SZ_compress_float_1D_MDQ(log_data, dataLength, realPrecision, valueRangeSize, medianValue_f);
     tdps->minLogValue = min_log_data - 1.5*realPrecision - 4*max_abs_log_data*1.2e-7; //the smallest magnitude decodes to at least min_log - e, strictly above; the margins are e/2 plus four roundings of the largest log value
@@ -1889,7 +1890,6 @@ void SZ_compress_args_float_NoCkRngeNoGzip_2D_pwr_pre_log(unsigned char** newByt
 	}
 
 	float valueRangeSize, medianValue_f;
-	computeRangeSize_float(log_data, dataLength, &valueRangeSize, &medianValue_f);
 	if(fabs(min_log_data) > max_abs_log_data) max_abs_log_data = fabs(min_log_data);
 	double realPrecision = log2(1.0 + pwrErrRatio) - max_abs_log_data * 1.2e-7;
 	if(realPrecision <= 0)
@@ -1906,6 +1906,8 @@ void SZ_compress_args_float_NoCkRngeNoGzip_2D_pwr_pre_log(unsigned char** newByt
 			log_data[i] = min_log_data - 3.0*realPrecision - 8*max_abs_log_data*1.2e-7; //a zero decodes to at most min_log - 2*e - 8 roundings, strictly below the threshold
 		}
 	}
+	//the range and the median the kernel works with cover the placeholders of the zeros as well
+	computeRangeSize_float(log_data, dataLength, &valueRangeSize, &medianValue_f);
 
     TightDataPointStorageF* tdps = SZ_compress_float_2D_MDQ(log_data, r1, r2, realPrecision, valueRangeSize, medianValue_f);
     tdps->minLogValue = min_log_data - 1.5*realPrecision - 4*max_abs_log_data*1.2e-7; //the smallest magnitude decodes to at least min_log - e, strictly above; the margins are e/2 plus four roundings of the largest log value
@@ -1960,7 +1962,6 @@ void SZ_compress_args_float_NoCkRngeNoGzip_3D_pwr_pre_log(unsigned char** newByt
 	}
 
 	float valueRangeSize, medianValue_f;
-	computeRangeSize_float(log_data, dataLength, &valueRangeSize, &medianValue_f);
 	if(fabs(min_log_data) > max_abs_log_data) max_abs_log_data = fabs(min_log_data);
 	double realPrecision = log2(1.0 + pwrErrRatio) - max_abs_log_data * 1.2e-7;
 	if(realPrecision <= 0)
@@ -1977,6 +1978,8 @@ void SZ_compress_args_float_NoCkRngeNoGzip_3D_pwr_pre_log(unsigned char** newByt
 			log_data[i] = min_log_data - 3.0*realPrecision - 8*max_abs_log_data*1.2e-7; //a zero decodes to at most min_log - 2*e - 8 roundings, strictly below the threshold
 		}
 	}
+	//the range and the median the kernel works with cover the placeholders of the zeros as well
+	computeRangeSize_float(log_data, dataLength, &valueRangeSize, &medianValue_f);
 
     TightDataPointStorageF* tdps = SZ_compress_float_3D_MDQ(log_data, r1, r2, r3, realPrecision, valueRangeSize, medianValue_f);
     tdps->minLogValue = min_log_data - 1.5*realPrecision - 4*max_abs_log_data*1.2e-7; //the smallest magnitude decodes to at least min_log - e, strictly above; the margins are e/2 plus four roundings of the largest log value
